@@ -45,11 +45,25 @@ FIELDS = tuple(DEFAULTS)
 
 
 def ts_of(s):
-    """Supplied timestamps: "1".."8" lie behind the clock (year 2000), "9" lies ahead of it (year 2100) - a
-    skewed worker clock or a replayed stream; a decorator must neither change them nor remember them."""
+    """Supplied timestamps, all to be forwarded unchanged and never remembered: "1" aware UTC behind the clock
+    (year 2000), "9" aware UTC ahead of it (year 2100: skewed worker clock, replayed stream), "2" timezone-NAIVE,
+    "3" aware at a non-UTC offset (+05:30)."""
     if s == "none":
         return None
+    if s == "2":
+        return datetime.datetime(2000, 1, 1, 0, 0, 2)
+    if s == "3":
+        return datetime.datetime(2000, 1, 1, 0, 0, 3, tzinfo=datetime.timezone(datetime.timedelta(hours=5, minutes=30)))
     return datetime.datetime(2100 if s == "9" else 2000, 1, 1, 0, 0, int(s), tzinfo=UTC)
+
+
+def same_value(g, w):
+    """Equality for 'forwarded unchanged': None-ness, value, and for datetimes also naive/aware and the offset."""
+    if (g is None) != (w is None) or g != w:
+        return False
+    if isinstance(w, datetime.datetime):
+        return isinstance(g, datetime.datetime) and (g.tzinfo is None) == (w.tzinfo is None) and g.utcoffset() == w.utcoffset()
+    return True
 
 
 def route_of(segs):
@@ -314,7 +328,7 @@ def replay(spec_tree, hist):
                     elif f == "test_tags" and path_has_tagger:
                         ok = (g or None) == (w or None)  # a tagger may say "no tags" as None or as an empty set
                     else:
-                        ok = g == w and (g is None) == (w is None)
+                        ok = same_value(g, w)
                     if not ok:
                         cls = leaf.kind
                         if f == "timestamp" and w == "NOW" and any(
